@@ -62,7 +62,10 @@ ATTR_VALUES = ["&amp;lt;", "&amp;#60;x", "&amp;amp", "a&amp;b;", "", "1", "x", "
 
 TEXT_ATOMS = ["&amp;lt;", "&amp;#60;", "&amp;amp;", "a", "b", "x", "y", "1", " ", " ", "\n", "\t", "\f", "\r", "\r\n", "\x00", "&amp;", "&lt", "&#x41;", "&", "&#0;",
               "&notit;", "<", ">", "\U0001F600", "\ud800", "\udc00", "\x01", "\ufffe", "é", "ab cd", "  ", "]]>", "--", "=", "\"", "'",
-              "&#xD800;", "&#x80;", "\x7f", " ", "/", "!"]
+              "&#xD800;", "&#x80;", "\x7f", " ", "/", "!",
+              "\xc9;", "\xc9c", "&#x10FFFF;", "&#x110000;", "&#1114111", "&#xFFFF;",
+              # references to characters that are white space to Unicode / Python but not to HTML
+              "&nbsp;", "&#160;", "&emsp;", "&#x2003;", "&#11;", "&#x1f;", "&#x2028;", "&thinsp;", "&#x3000;", "\x0b", "\x1c", "\u2003"]
 
 COMMENTS = ["<!--c-->", "<!---->", "<!-->", "<!--->", "<!--a--!>", "<!-- -- -->", "<!--a--", "<!--", "<!x>", "<!>", "<?pi?>", "<?",
             "</ x>", "</>", "<!--<!---->", "<!--a-b--c--->", "<!--\x00-->", "<!---\x00-->", "<!--a\r\nb-->", "<!-- <p> -->",
